@@ -250,4 +250,4 @@ def run(case, ctx):
 
 def stages(tier):
     return [{"name": "cases", "kind": "hyp", "strategy": strategy, "run": run,
-             "examples": {"quick": 12000, "thorough": 200000}, "shards": 16}]
+             "examples": {"quick": 12000, "thorough": 800000}, "shards": 16}]
